@@ -11,18 +11,36 @@ def _alts(fam):
     ]
 
 
+# second half: the goal follows the cluster size THROUGH THE REAL MEMBERSHIP COMPONENT (spec/PeerGoal.tla).
+# "code": goals recomputed exactly when a handled message changes the listed id set / on creation (what the tree does);
+# "loose": all C13 asks for - recomputed whenever the implementation likes, but in force once membership has been
+# stable for PeerEntryTimeout + one refresh interval.  VIOLATION only if neither fits.
+_PG_H = ["sample/c12_export.go", "sample/c13_peergoal_test.go", "internal/peer/c13_export.go"]
+
+
+def _pg(name, quick, thorough, budget, tiers=("quick", "thorough")):
+    return dict(kind="walk", name=name, module="PeerGoal", pkg="sample", test="TestVerifC13PeerGoal", harness=_PG_H, tiers=tiers,
+                alternatives=[dict(name=a, cfg={"quick": f"MC_PeerGoal_{quick}_{a}.cfg", "thorough": f"MC_PeerGoal_{thorough}_{a}.cfg"}) for a in ("code", "loose")],
+                budget=budget, maxwalk=120, dump_workers=4, tlc_timeout=900)
+
+
 PROP = dict(
     level="model_checking",
-    technique="TLA+ spec Samplers.tla (registry, goalThroughputConfigs, peerCount, asynchronous peer-change callback, reload path) model-checked by TLC; every generated transition replayed into the real sample.SamplerFactory with the callback started like the real peers implementations do (spec->code transition tour)",
+    technique="TLA+ spec Samplers.tla (registry, goalThroughputConfigs, peerCount, asynchronous peer-change callback, reload path) model-checked by TLC; every generated transition replayed into the real sample.SamplerFactory with the callback started like the real peers implementations do (spec->code transition tour); TLA+ spec PeerGoal.tla (peer registry: start / heartbeat / unregister / crash / lazy entry expiry / change notification, together with the factory's goal scaling) model-checked by TLC incl. the timed invariant, every generated transition replayed into 2-3 real RedisPubsubPeers on a real pubsub.LocalPubSub and a fake clock, each feeding a real SamplerFactory (spec->code transition tour)",
     design_ref="DESIGN.md §5 C13",
-    level_text="TLC enumerates rules files mixing TotalThroughput, EMAThroughput and WindowedThroughput samplers with and without UseClusterSize (by destination, by rule with different field lists, by rule differing in UseClusterSize only, and a single cluster-size sampler with awkward tuning values that survives a reload), goals {1,2,10}, cluster sizes {1,2,3,5} changing in any order, the callback goroutine running at any later point, lazy creation before/after/between changes, and configuration reloads, and checks on the model that whenever no callback is outstanding every registered throughput instance has goal = max(1, goal div peers) iff its definition has UseClusterSize and the configured goal otherwise (RegistryGoals), and that at quiescence this holds for the sampler every worker would use (WorkerGoals). Every generated transition is executed on the real SamplerFactory (rules files loaded by the real config package, Config.Reload, ClearDynsamplers, updatePeerCounts started as `go callback()`), and GoalThroughputPerSec read from the live dynsampler-go instances must equal the model's after every step.",
-    level_note="Exhaustive only within the bound (2 destinations, <=2 downstream samplers, 1 worker in the replay / 2 in TLC, one configuration change, peers in {1,2,3,5}, goals in {1,2,10}). Since /repo commit 871b085 the code conforms to the ideal key (alternative observed-key is kept last only to name a regression). A ghost variable (has updatePeerCounts run since the registry was cleared) splits model states so that the edge tour replays creation-after-reload both with and without an intervening goal update. createSampler's three critical sections (registry, goalThroughputConfigs, updatePeerCounts) are one model step; a GetPeers error / empty peer list (count kept) is not modelled.",
+    level_text="TLC enumerates rules files mixing TotalThroughput, EMAThroughput and WindowedThroughput samplers with and without UseClusterSize (by destination, by rule with different field lists, by rule differing in UseClusterSize only, and a single cluster-size sampler with awkward tuning values that survives a reload), goals {1,2,10}, cluster sizes {1,2,3,5} changing in any order, the callback goroutine running at any later point, lazy creation before/after/between changes, and configuration reloads, and checks on the model that whenever no callback is outstanding every registered throughput instance has goal = max(1, goal div peers) iff its definition has UseClusterSize and the configured goal otherwise (RegistryGoals), and that at quiescence this holds for the sampler every worker would use (WorkerGoals). Every generated transition is executed on the real SamplerFactory (rules files loaded by the real config package, Config.Reload, ClearDynsamplers, updatePeerCounts started as `go callback()`), and GoalThroughputPerSec read from the live dynsampler-go instances must equal the model's after every step. Second half (PeerGoal.tla): the cluster size is no longer set by the harness but produced by the real membership component. TLC explores, for 2 nodes (both tiers) and 3 nodes (thorough), every order of node start, refresh-ticker firing (gap 3 or 4 ticks of 1 s), graceful stop (unregister message), silent crash (entry expiry after PeerEntryTimeout = 10 ticks), lazy sampler creation at any point, ClearDynsamplers and re-creation, goals {12} / {2,12}, and checks on the model: once membership has been stable for PeerEntryTimeout + one refresh interval (+1 tick of discretisation; TLC refutes the bound without it) every running node's factory scales by exactly the number of live nodes (GoalConverged), the goals never lag the node's own GetPeers() by more than one refresh interval (LagBounded), a join / graceful leave is in force as soon as the message is handled, a sampler created at any time starts with the goal of the size its node reports. Every generated transition is executed on real RedisPubsubPeers instances (real Start, Ready goroutine, listen, checkHash, `go callback()`), one per node, on one real LocalPubSub and one fake clock, each the Peers of a real SamplerFactory with TotalThroughput, EMAThroughput and WindowedThroughput samplers with and without UseClusterSize (rules loaded by the real config package); after every step len(GetPeers()) and the set of GoalThroughputPerSec values of the live dynsampler instances of every running node must equal the model's. If the code does not follow the code-shaped model the walk falls back to the loose model (goals recomputed at any step or not, either boundary convention at the expiry instant, but in force by the bound above); VIOLATION only if neither fits.",
+    level_note="Exhaustive only within the bound (2 destinations, <=2 downstream samplers, 1 worker in the replay / 2 in TLC, one configuration change, peers in {1,2,3,5}, goals in {1,2,10}). Since /repo commit 871b085 the code conforms to the ideal key (alternative observed-key is kept last only to name a regression). A ghost variable (has updatePeerCounts run since the registry was cleared) splits model states so that the edge tour replays creation-after-reload both with and without an intervening goal update. createSampler's three critical sections (registry, goalThroughputConfigs, updatePeerCounts) are one model step; a GetPeers error / empty peer list (count kept) is not modelled. PeerGoal: the channel delivers a published message to every subscriber at once (LocalPubSub; delivery orders, delays and publish failures are C18's Peers.tla), the refresh ticker's channel is interposed (the goroutine gets its tick when the model says so; the period the code asked for must lie in the 3..4 s envelope, else cannot-decide), the peer map is re-seated on the fake clock after Start (NewMapWithTTL ignores the injected clock), a change callback is awaited exactly when the hash checkHash stores changed during the step (read through an exported accessor: a refactoring of that field is a build failure = cannot-decide, not a verdict); the loose alternative does not compare len(GetPeers()). 3-node graphs: samplers on one node only (replay) / two nodes (TLC only).",
     assumptions=["bounded: peers {1,2,3,5}, goals {1,2,10}, 2 destinations, one configuration change",
-                 "the peers implementation calls the registered callback in a new goroutine after the membership it reports has changed (RedisPubsubPeers.checkHash, FilePeers)"],
+                 "the peers implementation calls the registered callback in a new goroutine after the membership it reports has changed (RedisPubsubPeers.checkHash, FilePeers)",
+                 "PeerGoal: clockwork.FakeClock is faithful; a published message reaches every running node at once and is never lost; the refresh ticker fires 3..4 s after its previous firing; bounded: 2-3 nodes, <=3-5 start/stop/crash events, one ClearDynsamplers"],
     stages=[
         dict(kind="tlc", name="Samplers-c13-mc", module="Samplers", cfg={"quick": None, "thorough": "MC_Samplers_c13_mc_big.cfg"}, workers=8, timeout=900),
         dict(kind="walk", name="Samplers-c13", module="Samplers", pkg="sample", test="TestVerifSamplers",
              harness=["sample/c12_export.go", "sample/c12_samplers_test.go"], alternatives=_alts("c13"),
              budget={"quick": 60, "thorough": 360}, dump_workers=8),
+        dict(kind="tlc", name="PeerGoal-timed", module="PeerGoal", cfg={"quick": "MC_PeerGoal_pair_q_timed.cfg", "thorough": "MC_PeerGoal_pair_timed.cfg"}, workers=4),
+        _pg("PeerGoal-pair", "pair_q", "pair_t", {"quick": 30, "thorough": 60}),
+        _pg("PeerGoal-trio", "trio", "trio", {"thorough": 100}, tiers=("thorough",)),
+        dict(kind="tlc", name="PeerGoal-timed-trio", module="PeerGoal", cfg="MC_PeerGoal_trio_timed.cfg", workers=8, tiers=("thorough",)),
     ],
 )
